@@ -255,6 +255,7 @@ def run(ctx):
     from radical.pilot.utils.misc import convert_slots_to_new, convert_slots_to_old
     from radical.pilot.resource_config import Slot
     ops, impl = [], []
+    singles = []           # (old slot, model form, canonical result of the real single-slot conversion)
     for _ in range(ctx.n(600, 20000)):
         form_c = rng.choice(['ints', 'pairs', 'dicts', 'lists'])
         form_g = rng.choice(['ints', 'pairs', 'dicts', 'lists'])
@@ -271,6 +272,7 @@ def run(ctx):
         except Exception as e:
             new, res = None, type(e).__name__
         ops.append(op); impl.append(res)
+        singles.append((old, op['old'], res))
         ctx.case(op, nontrivial=bool(c or g))
         if new is not None:
             want_c = [x if isinstance(x, int) else (x[0] if isinstance(x, tuple) else x['index']) for x in c]
@@ -301,7 +303,28 @@ def run(ctx):
                              {'kind': 'roundtrip', 'new': res})
         elif form_c != 'lists' and form_g != 'lists':
             ctx.fail('slots:to_new-raises', res, {'kind': 'to_new', 'old': old})
-    common.compare(ctx, 'descr', ops, impl, what='convert_slots_to_new / convert_slots_to_old')
+    # lists of slots (one per rank): every slot converts as it converts alone
+    for _ in range(ctx.n(300, 8000)):
+        pick = [rng.choice(singles) for _ in range(rng.choice([2, 2, 3, 4]))]
+        if rng.random() < 0.8:
+            pick = [p for p in pick if isinstance(p[2], dict)] or pick
+        try:
+            got = [slot_canon(x.as_dict()) for x in convert_slots_to_new([copy.deepcopy(p[0]) for p in pick])]
+        except ValueError:
+            got = 'ValueError'
+        except Exception as e:
+            got = type(e).__name__
+        op = {'op': 'to_new_list', 'olds': [p[1] for p in pick]}
+        ops.append(op); impl.append(got)
+        ctx.case(op, nontrivial=isinstance(got, list) and any(p[0]['gpus'] for p in pick) and not all(p[0]['gpus'] for p in pick))
+        if isinstance(got, list):
+            for i, (p, r) in enumerate(zip(pick, got)):
+                if r != p[2]:
+                    ctx.fail('slots:slot-converts-differently-inside-a-list',
+                             'slot %d of %d converts to %s alone and to %s in the list' % (i, len(pick), p[2], r),
+                             {'kind': 'to_new_list', 'olds': [p[0] for p in pick]})
+                    break
+    common.compare(ctx, 'descr', ops, impl, what='convert_slots_to_new / convert_slots_to_old (single slots and lists)')
 
     # -- function transport --------------------------------------------------------------
     bad_fn = 0
@@ -352,6 +375,18 @@ def replay(ctx, data):
         except Exception as e:
             print('observed:', repr(e))
             return False
+    if i['kind'] == 'to_new_list':
+        from radical.pilot.utils.misc import convert_slots_to_new
+        def fix(o):       # JSON turned the (index, occupation) tuples into lists
+            o = dict(o)
+            for k in ('cores', 'gpus'):
+                o[k] = [tuple(x) if isinstance(x, list) and len(x) == 2 and not isinstance(x[0], list) and isinstance(x[1], float) else x for x in o[k]]
+            return o
+        olds = [fix(o) for o in i['olds']]
+        alone = [slot_canon(convert_slots_to_new([copy.deepcopy(o)])[0].as_dict()) for o in olds]
+        inlist = [slot_canon(x.as_dict()) for x in convert_slots_to_new(copy.deepcopy(olds))]
+        print('observed: alone', alone, 'in the list', inlist)
+        return alone == inlist
     if i['kind'] == 'fn':
         bad, _ = fn_case(rp, i['seed'], i['index'])
         print('observed:', bad)
